@@ -55,15 +55,15 @@ Fixpoint decode (hdr : nat) (t : dtype) (bs : bytes) {struct t} : result (value 
   | TVec n => '(l, r) <- need n bs ;; Ok (VVec l, r)
   | TBlob =>
       '(n', r') <- plen_blob bs ;;
-      let '(p, r'') := read_upto (N.to_nat n') r' in
-      if Nat.eqb (length p) (N.to_nat n') then Ok (VBytes p, r'') else Err EAssert
+      let '(p, r'') := read_uptoN n' r' in
+      if N.of_nat (length p) =? n' then Ok (VBytes p, r'') else Err EAssert
   | TString =>
       '(n', r') <- plen_string bs ;;
-      let '(p, r'') := read_upto (N.to_nat n') r' in
+      let '(p, r'') := read_uptoN n' r' in
       Ok (text_or_bytes p, r'')
   | TPython =>
       '(n, r) <- plen_py bs ;;
-      let '(p, r') := read_upto (N.to_nat n) r in Ok (VBytes p, r')
+      let '(p, r') := read_uptoN n r in Ok (VBytes p, r')
   | TMailbox =>
       let '(ip, r) := read_upto 4 bs in
       if Nat.eqb (length ip) 4 then
